@@ -140,6 +140,29 @@ def norm_cont_rule(repo, R):
                 return self.env[ast.unparse(e)]
             if isinstance(e, ast.Attribute) and ast.unparse(e) in ("self.num_cart", "self.num_seg_cont", "self.num_sph"):
                 return sp.Symbol(e.attr, positive=True, integer=True)
+            if isinstance(e, ast.Call) and isinstance(e.func, ast.Attribute) and e.func.attr == "reshape" and isinstance(e.func.value, ast.Call) \
+                    and ast.unparse(e.func.value.func) in ("np.tile", "numpy.tile") and len(e.func.value.args) == 2:
+                # np.tile(v, n).reshape(a, b): row i is v[i] repeated only if the copies of v are laid out along the rows, i.e. the shape
+                # is (n, len(v)); with (len(v), n) the entries of different segments are interleaved (np.repeat was meant)
+                dims = e.args[0].elts if len(e.args) == 1 and isinstance(e.args[0], (ast.Tuple, ast.List)) else e.args
+                reps = ast.unparse(e.func.value.args[1])
+                if len(dims) == 2 and ast.unparse(dims[1]) == reps and ast.unparse(dims[0]) != reps:
+                    notes.append(f"`{ast.unparse(e)[:80]}` tiles the per-segment values and reshapes to (segments, components): entries of different "
+                                 "segments are interleaved over the components (np.repeat gives row i = value i)")
+                    return sp.Symbol("TILE_MISORDERED", positive=True)
+                return self.expr(e.func.value.args[0])
+            if isinstance(e, ast.Subscript) and isinstance(e.value, ast.Call) and ast.unparse(e.value.func).endswith("Overlap.construct_array_contraction"):
+                # a component slice of the self-overlap block, e.g. [:, 0, :, 0]: the (M, M) block of component 0 with itself
+                base = self.expr(e.value)
+                idx = e.slice.elts if isinstance(e.slice, ast.Tuple) else [e.slice]
+                if base == SELF_OV and len(idx) == 4 and isinstance(idx[0], ast.Slice) and isinstance(idx[2], ast.Slice) \
+                        and ast.unparse(idx[1]) == ast.unparse(idx[3]) and isinstance(idx[1], ast.Constant):
+                    return sp.Symbol("SELF_OVERLAP_MM", positive=True)
+                self.err("slice of the self-overlap block not recognised", e)
+            if isinstance(e, ast.Call) and ast.unparse(e.func) in ("np.diag", "np.diagonal", "numpy.diag") and len(e.args) == 1:
+                if self.expr(e.args[0]) == sp.Symbol("SELF_OVERLAP_MM", positive=True):
+                    return S  # the norm does not depend on the component: the diagonal of one component's (M, M) block is S[m, .]
+                self.err("np.diag of something other than a component block of the self-overlap", e)
             if isinstance(e, ast.Call) and ast.unparse(e.func) in ("np.repeat", "np.tile", "np.broadcast_to", "np.full", "np.ones") and e.args:
                 # spreading a value over the component axis: the same generic element
                 if ast.unparse(e.func) == "np.ones":
